@@ -10,12 +10,12 @@ import (
 
 // StageCfg describes one stage of a generated pipeline.
 type StageCfg struct {
-	Name   string    `json:"name"`
-	Deps   []string  `json:"deps,omitempty"`
-	Cond   string    `json:"cond,omitempty"` // "", "true", "false", "missing-cmd"
-	Fail   bool      `json:"fail,omitempty"` // the stage's task returns an error
-	Allow  bool      `json:"allow,omitempty"`
-	Inner  *GraphCfg `json:"inner,omitempty"`
+	Name  string    `json:"name"`
+	Deps  []string  `json:"deps,omitempty"`
+	Cond  string    `json:"cond,omitempty"` // "", "true", "false", "missing-cmd"
+	Fail  bool      `json:"fail,omitempty"` // the stage's task returns an error
+	Allow bool      `json:"allow,omitempty"`
+	Inner *GraphCfg `json:"inner,omitempty"`
 }
 
 // GraphCfg is a pipeline.
@@ -25,13 +25,56 @@ type GraphCfg struct {
 
 // Cfg is one configuration of the scheduler harness.
 type Cfg struct {
-	G      GraphCfg `json:"g"`
-	Cancel string   `json:"cancel,omitempty"` // "", "external"
-	Real   bool     `json:"real,omitempty"`   // real TaskRunner with echo-seam commands
-	Index  int64    `json:"index"`
+	G       GraphCfg `json:"g"`
+	Cancel  string   `json:"cancel,omitempty"` // "", "external"
+	Real    bool     `json:"real,omitempty"`   // real TaskRunner with echo-seam commands
+	Index   int64    `json:"index"`
+	Alias   int      `json:"alias,omitempty"`    // naming scheme of the real stages (the harness keeps its own unique keys)
+	ErrKind int      `json:"err_kind,omitempty"` // which error value a failing task returns (0 plain, 1 context.DeadlineExceeded, 2 context.Canceled, 3 wrapped deadline, 4 interpreter exit status)
+	Shared  bool     `json:"shared,omitempty"`   // every leaf stage refers to ONE task object; the stage is told apart by a stage-level env entry
 }
 
-func (c Cfg) String() string { return c.G.String() + map[bool]string{true: " +cancel", false: ""}[c.Cancel != ""] }
+// aliasOf maps a harness stage key to the name the real stage gets. Scheme 1 gives the stages of the
+// inner pipeline the names of outer stages (stage names are unique per pipeline only); schemes >= 2
+// are the adversarial alphabets of the graph harness: names whose concatenation around a separator is
+// ambiguous, that are prefixes of one another or that differ only in case.
+var aliasSchemes = func() []map[string]string {
+	out := []map[string]string{nil, {"x": "a", "y": "b"}}
+	for _, sep := range []string{":", "-", ".", "/", "_", ",", " ", "->", "|", ""} {
+		out = append(out, map[string]string{"a": "a", "b": "a" + sep + "b", "c": "b" + sep + "a", "d": "b", "e": "a" + sep + "b" + sep + "a", "x": "a", "y": "a" + sep + "b"})
+	}
+	out = append(out, map[string]string{"a": "a", "b": "A", "c": "aa", "d": "Aa", "e": "aA", "x": "A", "y": "a"})
+	return out
+}()
+
+func (c *Cfg) aliasOf(k string) string {
+	if c.Alias > 0 && c.Alias < len(aliasSchemes) {
+		if v, ok := aliasSchemes[c.Alias][k]; ok {
+			return v
+		}
+	}
+	return k
+}
+
+func (c Cfg) String() string {
+	return c.G.String() + map[bool]string{true: " +cancel", false: ""}[c.Cancel != ""] + c.extras()
+}
+
+func (c Cfg) extras() string {
+	x := ""
+	if c.Alias == 1 {
+		x += " names:inner=outer"
+	} else if c.Alias > 1 {
+		x += fmt.Sprintf(" names:%q,%q,%q", c.aliasOf("a"), c.aliasOf("b"), c.aliasOf("c"))
+	}
+	if c.ErrKind != 0 {
+		x += fmt.Sprintf(" errkind:%d", c.ErrKind)
+	}
+	if c.Shared {
+		x += " shared-task"
+	}
+	return x
+}
 
 func (g GraphCfg) String() string {
 	var parts []string
